@@ -7,8 +7,8 @@
   item  :=  p | e id bytes
   pad   :=  none | some filler-bytes
 
-  c03.wire  wire bytes <n> q*              => un hn re reUn <n> id* <n> obytes*
-  c03.mut   bytes <n> q*                   => un hn re reUn <n> id* <n> obytes*
+  c03.wire  wire bytes <n> q* prev         => un hn re reUn <n> id* <n> obytes* unDirty
+  c03.mut   bytes <n> q* prev              => un hn re reUn <n> id* <n> obytes* unDirty
   c03.view  kind(1|2|3) blk bytes <n> q* fill => unm ids <n> get* marshal size <n> to*
   blk   :=  none | some ext(≠0)
 
@@ -58,30 +58,31 @@ def rdObs : Rd Pred.C03.Obs := do
   let ru ← Rd.resC rdPacket
   let ids ← Rd.list Rd.u8
   let gets ← Rd.list Rd.obytes
-  pure { un := un, hn := hn, re := re, reUn := ru, ids := ids, gets := gets }
+  let ud ← Rd.resC rdPacket
+  pure { un := un, hn := hn, re := re, reUn := ru, ids := ids, gets := gets, unDirty := ud }
 
 /-- `c03.wire` -/
 def c03wire : Handler :=
   mkHandler
-    (do let w ← rdWire; let b ← Rd.bytes; let qs ← Rd.list Rd.u8
+    (do let w ← rdWire; let b ← Rd.bytes; let qs ← Rd.list Rd.u8; let prev ← Rd.bytes
         if w.encode != b then Rd.fail else
         -- the specification's own decoder (oracle of c03.mut) must find every well-formed image again
         match Wire.describe b with
-        | some w' => if w'.toPacket != w.toPacket then Rd.fail else pure (w, b, qs)
-        | none => if w.WF then Rd.fail else pure (w, b, qs))
+        | some w' => if w'.toPacket != w.toPacket then Rd.fail else pure (w, b, qs, prev)
+        | none => if w.WF then Rd.fail else pure (w, b, qs, prev))
     rdObs
-    (fun (_, b, qs) => Pred.C03.modelObs b qs)
-    (fun (w, b, qs) o => Pred.C03.wire w b qs o)
-    (fun (w, _, _) => Pred.C03.wireWF w)
-    (fun (w, _, _) _ =>
+    (fun (_, b, qs, prev) => Pred.C03.modelObs b qs prev)
+    (fun (w, b, qs, _) o => Pred.C03.wire w b qs o)
+    (fun (w, _, _, _) => Pred.C03.wireWF w)
+    (fun (w, _, _, _) _ =>
       if Pred.C03.reservedRegion w then some "c03_reserved_id"
       else if Pred.C03.appbitsRegion w then some "c03_twobyte_appbits" else none)
 
 /-- `c03.mut` -/
 def c03mut : Handler :=
-  mkHandler (do let b ← Rd.bytes; let qs ← Rd.list Rd.u8; pure (b, qs)) rdObs
-    (fun (b, qs) => Pred.C03.modelObs b qs) (fun (b, qs) o => Pred.C03.mutOK b qs o)
-    (fun (b, _) => Pred.C03.mutWF b) (fun (b, _) _ => Pred.C03.mutRegion b)
+  mkHandler (do let b ← Rd.bytes; let qs ← Rd.list Rd.u8; let prev ← Rd.bytes; pure (b, qs, prev)) rdObs
+    (fun (b, qs, prev) => Pred.C03.modelObs b qs prev) (fun (b, qs, _) o => Pred.C03.mutOK b qs o)
+    (fun (b, _, _) => Pred.C03.mutWF b) (fun (b, _, _) _ => Pred.C03.mutRegion b)
 
 def rdViewKind : Rd ViewKind := do
   let t ← Rd.nat
